@@ -148,3 +148,21 @@ for v in (3, 11, 5, -2):
     except BaseException as e:  # noqa
         print("EXTRA ruled(%d) error:%s" % (v, type(e).__name__))
 
+
+# a select of a select of a select: what may be assigned to an attribute of that type
+try:
+    sr_ = mod.sup_r(REAL(1.0), STRING("y"))
+    kw_ = mod.kw_user(INTEGER(3), INTEGER(2), STRING("n"))
+    su_ = mod.sel_user(sr_, sr_)
+    for (attr_, val_, tag_) in (("f", sr_, "sup_r"), ("f", kw_, "kw_user"), ("g", sr_, "sup_r"), ("g", kw_, "kw_user"), ("f", INTEGER(3), "integer")):
+        try:
+            setattr(su_, attr_, val_)
+            print("EXTRA sel_user.%s:=%s accept" % (attr_, tag_))
+        except TypeError:
+            print("EXTRA sel_user.%s:=%s refuse" % (attr_, tag_))
+        except BaseException as e:  # noqa
+            print("EXTRA sel_user.%s:=%s error:%s" % (attr_, tag_, type(e).__name__))
+except TypeError as e:
+    print("EXTRA sel_user error:TypeError")
+except BaseException as e:  # noqa
+    print("EXTRA sel_user error:%s" % type(e).__name__)
